@@ -88,6 +88,17 @@
    F16 Quirk: a segment with D# = 0 and nothing written before the fields section has
        its first field record at file offset 0 (which the shipped reader takes for
        "absent").  This decoder decodes what the bytes say (all NF records).
+   F17 Quirk found with this decoder: in a segment BUILT from an empty batch the record at
+       offset 0 (`_id`) can carry a non-zero, dangling inverted-section address (e.g.
+       0x125 in an 86-byte file): `invertedIndexOpaque.Reset` does not clear `fieldAddrs`,
+       `writeDicts` returns early for an empty batch, so `AddrForField` hands out the
+       address left behind by the previous build that used the pooled `interim`.  The
+       shipped reader never follows it (F16).  Here: for D# = 0 the section addresses of
+       the record at offset 0 are not followed (name and framing still are).
+   F18 Synonym ids are file-local names: one counter per batch over ALL thesauri in New
+       (`sidNext`), one per field in Merge.  The comparison with the model is therefore
+       modulo renaming (codes are resolved to (synonym term, doc) through the file's own
+       table; ids must be unique in a table).
 -/
 import ZapModel.Types
 import ZapModel.Codec
@@ -440,6 +451,7 @@ def decThes (c : Ctx) (addr : Nat) : R Thes := do
     tab := tab.push (id, t)
     q := q2 + l
   if q ≠ addr then throw s!"thesaurus at {tl}: term table ends at {q}, its section record is at {addr}"
+  if !ascNat ((tab.toList.map (·.1)).mergeSort (· ≤ ·)) then throw s!"thesaurus at {tl}: term table lists a synonym id twice"
   return { terms := terms, table := tab.toList }
 
 /-! ### vectors (F14) -/
@@ -473,6 +485,8 @@ def decField (c : Ctx) (addr : Nat) : R FieldM := do
   let (ns, p) ← uv b (p + nl)
   if ns > b.size then throw s!"field record {addr}: section count {ns} exceeds the file size"
   let mut fm : FieldM := { name := name }
+  -- F17: the record at offset 0 of an empty segment may carry a stale section address
+  if c.numDocs = 0 ∧ addr = 0 then return fm
   let mut seen : List Nat := []
   for j in [0:ns] do
     let typ ← be b (p + 10 * j) 2
@@ -591,8 +605,26 @@ def diffDV (want got : Option (List (Nat × List Bytes))) : Option String :=
         | none => "nothing more"
       some s!"doc values: position {i}: model has {sh w[i]?}, file has {sh g[i]?}"
 
-def sortTable (t : List (Nat × Bytes)) : List (Nat × Bytes) :=
-  t.mergeSort (fun a b => a.1 < b.1 || (a.1 == b.1 && !Bytes.lt b.2 a.2))
+/-- Synonym ids are names local to one file (the writer numbers them with one counter
+    per batch, the model per thesaurus; Merge renumbers): compare thesauri modulo the
+    renaming, i.e. after resolving every code (id, doc) to (synonym term, doc) through
+    the file's own table.  An id without table entry resolves to `none`. -/
+def codeLe (a b : Option Bytes × Nat) : Bool :=
+  match a.1, b.1 with
+  | none, none => a.2 ≤ b.2
+  | none, some _ => true
+  | some _, none => false
+  | some x, some y => Bytes.lt x y || (x == y && a.2 ≤ b.2)
+
+def resolveThes (t : Thes) : List (Bytes × List (Option Bytes × Nat)) :=
+  t.terms.map (fun p => (p.1, (p.2.map (fun c => (lookup c.1 t.table, c.2))).mergeSort codeLe))
+
+def tableTerms (t : Thes) : List Bytes := (t.table.map (·.2)).mergeSort (fun a b => !Bytes.lt b a)
+
+def codeStr (c : Option Bytes × Nat) : String :=
+  match c.1 with
+  | some t => s!"({hx t}, doc {c.2})"
+  | none => s!"(unknown id, doc {c.2})"
 
 def diffThes (want got : Option Thes) : Option String :=
   match want, got with
@@ -600,22 +632,24 @@ def diffThes (want got : Option Thes) : Option String :=
   | some _, none => some "thesaurus: in the model, no synonym section in the file"
   | none, some _ => some "thesaurus: synonym section in the file, none in the model"
   | some w, some g =>
-    match firstIdx w.terms g.terms (· == ·) with
+    let wr := resolveThes w
+    let gr := resolveThes g
+    match firstIdx wr gr (· == ·) with
     | some i =>
-      let sh := fun (o : Option (Bytes × List (Nat × Nat))) => match o with
-        | some p => s!"{hx p.1} -> {p.2}"
+      let sh := fun (o : Option (Bytes × List (Option Bytes × Nat))) => match o with
+        | some p => s!"{hx p.1} -> [{", ".intercalate (p.2.map codeStr)}]"
         | none => "nothing more"
-      some s!"thesaurus: term {i}: model has {sh w.terms[i]?}, file has {sh g.terms[i]?}"
+      some s!"thesaurus: term {i}: model has {sh wr[i]?}, file has {sh gr[i]?}"
     | none =>
-      let wt := sortTable w.table
-      let gt := sortTable g.table
+      let wt := tableTerms w
+      let gt := tableTerms g
       match firstIdx wt gt (· == ·) with
       | none => none
       | some i =>
-        let sh := fun (o : Option (Nat × Bytes)) => match o with
-          | some p => s!"{p.1} = {hx p.2}"
+        let sh := fun (o : Option Bytes) => match o with
+          | some t => hx t
           | none => "nothing more"
-        some s!"thesaurus: synonym table entry {i} (sorted by id): model has {sh wt[i]?}, file has {sh gt[i]?}"
+        some s!"thesaurus: synonym table term {i} (sorted): model has {sh wt[i]?}, file has {sh gt[i]?}"
 
 def diffVec (want got : Option VecIx) : Option String :=
   match want, got with
